@@ -1386,4 +1386,29 @@ theorem stream_framed (blk : Nat) (hs : Dic) (parts : List Bytes) (hwf : WFHeade
   exact Framed.chunked parts f2.1 f1.2
 
 
+
+
+theorem serveOne_flags (blk rblk : Nat) (opt : Bool) (q : Request) (p : Plan) (js base : Bytes)
+    (hproto : q.proto = sHttp11) (hconn : header q.headers sConnection = [])
+    (hopt : ¬ (q.method = sOPTIONS ∧ opt = true)) :
+    (serveOne blk rblk opt q p js base).called = true ∧ (serveOne blk rblk opt q p js base).keep = true := by
+  have h1 : (sHttp11 = sHttp10) = False := by simp [sHttp11, sHttp10]
+  have h2 : lowerAscii ([] : Bytes) = [] := rfl
+  have h3 : (([] : Bytes) = sClose) = False := by simp [sClose]
+  unfold serveOne
+  simp only [hproto, hconn, h1, h2, h3, hopt, if_false]
+  cases p.kind with
+  | none => simp
+  | bytes b => simp
+  | json => simp
+  | redirect loc b =>
+    simp only []
+    by_cases hr : q.resource = loc <;> simp [hr]
+  | stream parts fin => simp
+  | file content ext =>
+    simp only []
+    repeat' split
+    all_goals simp
+
+
 end AslProofs.HttpFrame
